@@ -9,6 +9,7 @@ import json, os, random, re
 import vlib
 
 WIDTHS = [0, 1, 2, 3, 4, 8, 16]
+DSTS = ["fresh", "full", "dirty-ff", "dirty-rand"]      # destination slice shapes (harness/cmd/prng/varint.go mkdst)
 BOUNDS = [0, 2**6, 2**14, 2**30, 2**31, 2**32, 2**62, 2**63, 2**64]
 VARINT_KINDS = ["MaxIdleTimeout", "MaxUDPPayloadSize", "InitialMaxData", "InitialMaxStreamDataBidiLocal", "InitialMaxStreamDataBidiRemote",
                 "InitialMaxStreamDataUni", "InitialMaxStreamsBidi", "InitialMaxStreamsUni", "MaxAckDelay", "ActiveConnectionIDLimit",
@@ -78,7 +79,8 @@ def tlc_trace(ctx, rows):
 
 def case_of(e):
     if e["ev"] == "V":
-        return ("varint", {"values": [e["x"]], "prefix": e["prefix"], "widths": [a["w"] for a in e["awl"]], "tail": e["tail"]})
+        return ("varint", {"values": [e["x"]], "prefix": e["prefix"], "widths": sorted({a["w"] for a in e["awl"]}), "tail": e["tail"],
+                           "dsts": [a["dst"] for a in e["appends"]]})
     if e["ev"] == "R":
         return ("varread", {"inputs": [e["in"]]})
     return ("tplist", {"lists": [e["ds"]]})
@@ -112,12 +114,17 @@ def run(ctx):
     nrand = 10000 if quick else 200000
     values = [list(v) for v in lattice] + [b8(b + d) for b in BOUNDS for d in range(-2, 3)] + [b8(rand_value(rng)) for _ in range(nrand)]
     nsh = 4 if quick else 12
+    nfull = len(values) - nrand + (3000 if quick else 40000)
     evs = []
     for k in range(nsh):
         part = values[k::nsh]
         prefix = [rng.randrange(256) for _ in range(rng.choice([0, 1, 5]))] if k else []
         tail = [rng.randrange(256) for _ in range(rng.choice([0, 2, 9]))] if k else []
-        evs += ctx.drv("varint", {"values": part, "prefix": prefix, "widths": WIDTHS, "tail": tail}, prog="prng", name="varint%d" % k)
+        # every destination shape for the lattice/boundary values and the first random ones of the shard, fresh-only for the rest
+        ndst = sum(1 for i in range(k, len(values), nsh) if i < nfull)
+        for tag, vs, dsts in (("a", part[:ndst], DSTS), ("b", part[ndst:], ["fresh"])):
+            if vs:
+                evs += ctx.drv("varint", {"values": vs, "prefix": prefix, "widths": WIDTHS, "tail": tail, "dsts": dsts}, prog="prng", name="varint%d%s" % (k, tag))
     inputs = [[], [0], [63], [64], [64, 1], [128, 0, 0], [128, 0, 0, 1], [192] + [0] * 6, [192] + [0] * 7, [255] * 8, [255] * 9, [0x40, 0x25], [0x80, 0, 0, 0x25]]
     for _ in range(2000 if quick else 30000):
         n = rng.randrange(0, 11)
@@ -157,6 +164,14 @@ def run(ctx):
         a["panic"], a["out"] = "", e["prefix"] + [e["x"][7]]
     can(ok_v, awl_fake, "appendwithlen-not-refused")                     # truncation instead of refusal
     can(ok_v, lambda e: e["rt"].__setitem__("val", b8(u64(e["rt"]["val"]) + 1)), "read-value")
+    dirty_v = lambda x: ok_v(x) and any(a["dst"] == "dirty-ff" for a in x["appends"])
+    def stale(e):              # stale bytes of a reused buffer shine through the padding of a wider encoding
+        a = next(a for a in e["awl"] if a["w"] == 4 and a["dst"] == "dirty-ff")
+        a["out"][len(e["prefix"])] |= 0x3f
+        a["out"][len(e["prefix"]) + 1] = 0xff
+    can(dirty_v, stale, "appendwithlen-bytes")
+    can(dirty_v, lambda e: next(a for a in e["appends"] if a["dst"] == "dirty-rand")["out"].__setitem__(0, next(a for a in e["appends"] if a["dst"] == "dirty-rand")["out"][0] ^ 1)
+        if e["prefix"] else next(a for a in e["appends"] if a["dst"] == "dirty-rand")["out"].append(0), "append-bytes-dst")      # prefix not preserved / extra byte
     def trunc(e):
         e["append"] = {"out": e["prefix"] + [192 | 0x3f] + e["x"][1:], "n": 0, "panic": ""}
     can(lambda x: x["ev"] == "V" and x["append"]["panic"] != "" and x["x"][0] >= 64, trunc, "append-not-refused")   # 2^62.. truncated to 62 bits
@@ -235,6 +250,9 @@ def run(ctx):
     classes = {"len%d" % n: sum(1 for e in V if minlen(u64(e["x"])) == n) for n in (1, 2, 4, 8)}
     classes["refused"] = sum(1 for e in V if minlen(u64(e["x"])) == 0)
     classes["awl_padded"] = sum(1 for e in V for a in e["awl"] if a["w"] in (1, 2, 4, 8) and 0 < minlen(u64(e["x"])) < a["w"])
+    classes["awl_padded_dirty_dst"] = sum(1 for e in V for a in e["awl"] if a["dst"].startswith("dirty") and a["w"] in (2, 4, 8) and 0 < minlen(u64(e["x"])) < a["w"])
+    classes["awl_padded_nonempty_prefix"] = sum(1 for e in V if e["prefix"] for a in e["awl"] if a["w"] in (2, 4, 8) and 0 < minlen(u64(e["x"])) < a["w"])
+    classes["append_full_dst"] = sum(1 for e in V for a in e["appends"] if a["dst"] == "full")
     classes["awl_too_small"] = sum(1 for e in V for a in e["awl"] if a["w"] in (1, 2, 4) and minlen(u64(e["x"])) > a["w"])
     classes["awl_bad_width"] = sum(1 for e in V for a in e["awl"] if a["w"] not in (1, 2, 4, 8))
     need = lambda b: 1 << (b[0] >> 6)
